@@ -3,12 +3,52 @@
    deadlines read at sweep time (reads may extend them), findBucket clamping an already-due
    expiration to the wheel's time (the repair of the stale-clock defect).  The implementation's
    wheel is compared bucket by bucket with the model after every operation (engine "maint").
-   Proved here: the sweep's decision and the placement of due timers; the placement invariant for
-   all add/delete/sweep sequences is C13_wheel_inv in theories/WheelInv.v when present (DESIGN 5). *)
-From Otter Require Import Base Wheel WheelFacts.
 
-(* a timer whose expiration already lies before the wheel's time (a write that sampled the clock
-   before a later sweep) is placed in level 0, in the bucket of the wheel's current tick *)
+   Proved here, for EVERY wheel reachable from the empty one by any sequence of links (Delete+Add under
+   any deadline, including deadlines already behind the wheel's time: the stale-clock write), unlinks
+   and sweeps at any monotone clock values (any jump: sub-tick, many revolutions, up to 2^63):
+     - C13_swept_within_a_tick: a linked timer whose placement key — the later of its deadline and the
+       wheel's time when it was linked — lies in a tick before the sweep time's tick, and whose current
+       deadline is before the sweep time, is handed to expireNode by that sweep;
+     - C13_only_due_expire: the sweep expires only timers whose current deadline is before the sweep
+       time, and every other timer stays linked (nothing is lost), unless its deadline is >= now
+       (then it was re-linked under that deadline);
+     - C13_placement_invariant: the placement invariant itself.
+   "Within one tick": key/2^30 < now/2^30 holds whenever key < now - 2^30. *)
+From Otter Require Import Base Wheel WheelFacts WheelInv.
+
+Theorem C13_swept_within_a_tick : forall ops cur now t,
+  wrun_ok wheel0 ops ->
+  let w := fold_left wstep ops wheel0 in
+  wtime w <= now < two63 -> (forall id, 0 <= cur id < two63) ->
+  tin w t -> tkey t / P0 < now / P0 -> cur (tid t) < now ->
+  In (tid t) (snd (wheel_delete_expired cur w now)).
+Proof. exact wheel_reachable_sweep_complete. Qed.
+Print Assumptions C13_swept_within_a_tick.
+
+Theorem C13_only_due_expire : forall ops cur now,
+  wrun_ok wheel0 ops ->
+  let w := fold_left wstep ops wheel0 in
+  wtime w <= now < two63 -> (forall id, 0 <= cur id < two63) ->
+  (forall id, In id (snd (wheel_delete_expired cur w now)) -> cur id < now) /\
+  (forall t, tin w t -> In (tid t) (snd (wheel_delete_expired cur w now)) \/
+                        tin (fst (wheel_delete_expired cur w now)) t \/ now <= cur (tid t)).
+Proof. exact wheel_reachable_sweep_sound. Qed.
+Print Assumptions C13_only_due_expire.
+
+Theorem C13_placement_invariant : forall ops, wrun_ok wheel0 ops -> Inv2 (fold_left wstep ops wheel0).
+Proof. intros ops H. exact (wheel_run_inv ops wheel0 inv2_wheel0 H). Qed.
+Print Assumptions C13_placement_invariant.
+
+(* the key a link records: the later of the deadline and the wheel's time (stale-clock writes are
+   keyed by the wheel's time, so they are met by the first sweep in a later tick) *)
+Theorem C13_link_key : forall w id e, Inv2 w -> 0 <= e < two63 ->
+  tin (wstep w (WLink id e)) (mkTimer id (Z.max e (wtime w))).
+Proof. exact link_key. Qed.
+Print Assumptions C13_link_key.
+
+(* a timer whose expiration already lies before the wheel's time is placed in level 0, in the bucket
+   of the wheel's current tick *)
 Theorem C13_due_timer_placement : forall w e,
   0 <= wtime w < two64 -> e < wtime w ->
   find_bucket w e = (0%nat, Z.to_nat (Z.land (Z.shiftr (wtime w) 30) 63), wtime w).
@@ -23,16 +63,24 @@ Theorem C13_sweep_decision : forall cur ts w acc,
 Proof. exact sweep_timers_spec. Qed.
 Print Assumptions C13_sweep_decision.
 
-(* concrete instances with the real constants: deadlines from nanoseconds to years ahead, single
-   and multi-revolution clock jumps, and the stale-clock write (exp < wheel time at Add) *)
-Example C13_instances :
-  let sweep_all w t := snd (wheel_delete_expired (fun id => id) w t) in
-  let w0 := mkWheel 1000000 (wlevels wheel0) in
+(* non-vacuity: a reachable wheel with timers in levels 0..4 and a stale-clock link meets the
+   hypotheses; concrete sweeps with the real constants *)
+Example C13_hypotheses_satisfiable :
   (* timer ids are their own deadlines *)
-  let w := fold_left (fun w e => wheel_add w e e) [1000001; 2000000000; 70000000000; 5000000000000; 200000000000000; 600000000000000] w0 in
-  sweep_all w (1000000 + 1073741824) = [1000001] /\
-  sweep_all w 80000000000 = [1000001; 2000000000; 70000000000] /\
-  sweep_all w 700000000000000 = [1000001; 2000000000; 70000000000; 5000000000000; 200000000000000; 600000000000000] /\
-  (* stale clock: deadline 500 < wheel time 1000000: swept at the next tick boundary *)
-  sweep_all (wheel_add w0 500 500) (1000000 + 1073741824) = [500].
-Proof. vm_compute. repeat split. Qed.
+  let cur := fun id : Z => if (0 <=? id) && (id <? 9223372036854775808) then id else 0 in
+  let ops := [WSweep cur 1000000; WLink 1000001 1000001; WLink 2000000000 2000000000; WLink 70000000000 70000000000;
+              WLink 5000000000000 5000000000000; WLink 200000000000000 200000000000000;
+              WLink 600000000000000 600000000000000; WLink 500 500] in
+  wrun_ok wheel0 ops /\
+  let w := fold_left wstep ops wheel0 in
+  tin w (mkTimer 500 1000000) /\ tin w (mkTimer 600000000000000 600000000000000) /\
+  snd (wheel_delete_expired cur w (1000000 + 1073741824)) = [1000001; 500] /\
+  snd (wheel_delete_expired cur w 700000000000000) =
+    [1000001; 500; 2000000000; 70000000000; 5000000000000; 200000000000000; 600000000000000].
+Proof.
+  cbv zeta. split.
+  - cbn [wrun_ok wop_ok]. unfold two63. repeat split; cbn [wtime wheel0]; try lia;
+      match goal with |- context [if ?c then _ else _] => destruct c eqn:E end; lia.
+  - split; [exists 0%nat, 0%nat; vm_compute; auto|].
+    split; [exists 4%nat, 0%nat; vm_compute; auto|]. vm_compute. split; reflexivity.
+Qed.
